@@ -11,10 +11,11 @@ Streams
 """
 
 import ast
+import json
 import sys
 
 from . import tables
-from .common import Check, Err, cN, cbool, clist, copt, cpair, cstr, impl_call
+from .common import VERIF, Check, Err, cN, cbool, clist, copt, cpair, cstr, impl_call
 from .tables import TableError
 
 ATTR_IDS = {"cpvstr": 0, "op": 1, "blocks": 2, "negate_vers": 3, "use": 4, "slot": 5, "subslot": 6,
@@ -141,6 +142,25 @@ SLOT_POOL = ("0", "00", "1", "01", "9", "10", "1.2", "1.02", "a1", "a01", "2.1",
 SUBSLOT_POOL = ("1", "01", "2", "a", "a1", "a01", "1.2", "1.02", "10", "9")
 REPO_POOL = ("gentoo", "other", "repo1", "repo01", "r9", "r10")
 FLAG_POOL = ("x", "x1", "x01", "x9", "x10", "y")
+# names in which one is a proper prefix of another, continued by a character sorting below '/' (+ - .),
+# or above it (digit, _ , letter): comparing (category, package) is not comparing any joined text
+CAT_POOL = ("dev", "dev-util", "dev.x", "dev+", "dev_x", "devel", "dev0", "a", "x11", "x11-libs")
+PKG_POOL = ("foo", "foo-bar", "foo+", "foo_x", "foo1", "fo", "b", "b-c")
+
+
+def prefix_related(a, b):
+    return a != b and (a.startswith(b) or b.startswith(a))
+
+
+class SortKey:
+    """sorted() through the object's own __lt__ (indices are sorted so ties keep their place)"""
+    __slots__ = ("o",)
+
+    def __init__(self, o):
+        self.o = o
+
+    def __lt__(self, other):
+        return self.o < other.o
 
 
 def zero_respell(rng, s):
@@ -217,8 +237,8 @@ def gen_atom(rng) -> A:
     use = None
     if rng.random() < 0.4:
         use = tuple(rng.sample(USE_POOL, rng.choice((1, 2, 2, 3))))
-    return A(blocks=blocks, bstrong=blocks and rng.random() < 0.5, op=op, cat=rng.choice(("a", "dev-x", "a")),
-             pkg=rng.choice(("b", "b-c", "b", "b1")), ver=ver, rev=rev, slot=slot, subslot=subslot, slotop=slotop,
+    return A(blocks=blocks, bstrong=blocks and rng.random() < 0.5, op=op, cat=rng.choice(CAT_POOL),
+             pkg=rng.choice(PKG_POOL), ver=ver, rev=rev, slot=slot, subslot=subslot, slotop=slotop,
              repo=rng.choice((None, None, None) + REPO_POOL), use=use,
              negate=bool(op) and rng.random() < 0.15)
 
@@ -280,7 +300,7 @@ def respell_atom(rng, a: A) -> A:
     if k == 12 and a.ver is not None:
         return a.copy(ver=c01.neighbour(rng, a.ver))
     if k == 13:
-        return a.copy(pkg=rng.choice(("b", "b-c", "b1")))
+        return a.copy(pkg=rng.choice(PKG_POOL)) if rng.random() < 0.5 else a.copy(cat=rng.choice(CAT_POOL))
     return a.copy()
 
 
@@ -457,44 +477,143 @@ def main(chk: Check):
             prop_bad.append({"what": f"{kind}: clause '{clause}' of C02 fails outside the known classes", "input": inp})
 
     # ------------------------------------------------------------ CPV pairs
+    # a CPV spec is (category, package, version AST or None = unversioned, revision or None)
     cpv_cases, key_cases = [], []
-    for i in range(chk.n(320, 4000)):
+
+    def cpv_text(sp):
+        c, p, v, r = sp
+        if v is None:
+            return f"{c}/{p}"
+        return f"{c}/{p}-{v.text()}" + ("" if r is None else "-r" + rng.choice(("", "0", "00")) + str(r))
+
+    def cpv_obj(sp, text):
+        return cpvmod.VersionedCPV(text) if sp[2] is not None else cpvmod.UnversionedCPV(text)
+
+    def cpv_term(sp):
+        c, p, v, r = sp
+        return "{| cat := %s; pkg := %s; ver := %s; rev := %s |}" % (
+            cstr(c), cstr(p), cstr("" if v is None else v.text()), copt(r, cN, "N"))
+
+    def seven(x, y):
+        return [x == y, x != y, x < y, x <= y, x > y, x >= y, hash(x) == hash(y)]
+
+    def expected_cpv(sa, sb):
+        """independent oracle: the order is (category, package, PMS version order), compared field by field"""
+        k = ((sa[0] > sb[0]) - (sa[0] < sb[0])) or ((sa[1] > sb[1]) - (sa[1] < sb[1]))
+        if not k and sa[2] is not None:
+            k = c01.py_pms_cmp(sa[2], sa[3] or 0, sb[2], sb[3] or 0)
+        return [k == 0, k != 0, k < 0, k <= 0, k > 0, k >= 0]
+
+    def judge_cpv(sa, sb, idx=1):
+        t1, t2 = cpv_text(sa), cpv_text(sb)
+
+        def run(swap):
+            x, y = cpv_obj(sa, t1), cpv_obj(sb, t2)
+            return seven(y, x) if swap else seven(x, y)
+        res, rres = impl_call(run, False), impl_call(run, True)
+        cpv_cases.append((cpair(cpv_term(sa), cpv_term(sb)), res))
+        cpv_cases.append((cpair(cpv_term(sb), cpv_term(sa)), rres))
+        if sa[2] is not None:
+            key_cases.append((cpv_term(sa), impl_call(lambda: cpvmod.VersionedCPV(t1).cpvstr)))
+        if t1 != t2:
+            chk.nontrivial(("cpv", t1, t2))
+        inp = {"a": t1, "b": t2, "[==,!=,<,<=,>,>=,hash==]": res}
+        if isinstance(res, Err) or isinstance(rres, Err):
+            report("CPV", "raised", {"a": t1, "b": t2, "error": (res if isinstance(res, Err) else rres).kind}, None)
+            return
+        for cl in clauses(res, rres):
+            known = (cl == "eq-hash" and sa[2] is not None and sb[2] is not None and k_cpv_respelled(sa, sb))
+            report("CPV", cl, inp, "cpv-respelled-version" if known else None)
+        want = expected_cpv(sa, sb)
+        if res[:6] != want:
+            report("CPV", "order is (category, package, version) compared field by field",
+                   dict(inp, expected=want), None)
+        if idx % 150 == 0:
+            chk.sample({"stream": "cpv", "a": t1, "b": t2, "impl[==,!=,<,<=,>,>=,hash==]": res})
+
+    one = c01.parse_text("1")
+    # corpus first (fixed cases of past misses)
+    cdir = VERIF / "corpus" / "C02"
+    corpus = [json.loads(f.read_text()) for f in sorted(cdir.glob("*.json"))] if cdir.exists() else []
+    for d in corpus:
+        if d.get("stream") == "cpv":
+            def sp(x):
+                return (x["cat"], x["pkg"], None if x.get("ver") is None else c01.parse_text(x["ver"]), x.get("rev"))
+            judge_cpv(sp(d["a"]), sp(d["b"]))
+    # names: every pair of categories (same package) and of packages (same category) from pools in which one
+    # name is a prefix of another followed by a character sorting below '/' (+ - .), above it (0-9 _ a-z), ...
+    name_pairs = []
+    for i in range(len(CAT_POOL)):
+        for j in range(i + 1, len(CAT_POOL)):
+            name_pairs.append(((CAT_POOL[i], "foo"), (CAT_POOL[j], "foo")))
+    for i in range(len(PKG_POOL)):
+        for j in range(i + 1, len(PKG_POOL)):
+            name_pairs.append((("dev", PKG_POOL[i]), ("dev", PKG_POOL[j])))
+    must = [p for p in name_pairs if prefix_related(p[0][0], p[1][0]) or prefix_related(p[0][1], p[1][1])]
+    rest = [p for p in name_pairs if p not in must]
+    if not (chk.thorough or chk.fingerprint_changed):
+        rest = rng.sample(rest, 12)
+    for n, ((ca, pa), (cb, pb)) in enumerate(must + rest):
+        if n % 3 == 2:
+            judge_cpv((ca, pa, None, None), (cb, pb, None, None))          # unversioned
+        elif n % 3 == 1:
+            judge_cpv((ca, pa, one, None), (cb, pb, c01.gen_version(rng), c01.gen_rev(rng)))
+        else:
+            judge_cpv((ca, pa, one, None), (cb, pb, one, None))
+    for i in range(chk.n(260, 4000)):
         v1 = c01.gen_version(rng)
         x = rng.random()
         v2 = v1 if x < 0.1 else (respell_version(rng, v1) if x < 0.5 else
                                  (c01.neighbour(rng, v1) if x < 0.85 else c01.gen_version(rng)))
         r1 = c01.gen_rev(rng)
         r2 = r1 if rng.random() < 0.6 else c01.gen_rev(rng)
-        c1, p1 = rng.choice(("a", "dev-x")), rng.choice(("b", "b-c", "b1"))
-        c2 = c1 if rng.random() < 0.85 else rng.choice(("a", "dev-x"))
-        p2 = p1 if rng.random() < 0.85 else rng.choice(("b", "b-c", "b1"))
-
-        def mk(c, p, v, r):
-            return f"{c}/{p}-{v.text()}" + ("" if r is None else "-r" + rng.choice(("", "0", "00")) + str(r))
-        t1, t2 = mk(c1, p1, v1, r1), mk(c2, p2, v2, r2)
-
-        def run(ta, tb):
-            x, y = cpvmod.VersionedCPV(ta), cpvmod.VersionedCPV(tb)
-            return [x == y, x != y, x < y, x <= y, x > y, x >= y, hash(x) == hash(y)]
-        res, rres = impl_call(run, t1, t2), impl_call(run, t2, t1)
-
-        def term(c, p, v, r):
-            return "{| cat := %s; pkg := %s; ver := %s; rev := %s |}" % (cstr(c), cstr(p), cstr(v.text()), copt(r, cN, "N"))
-        cpv_cases.append((cpair(term(c1, p1, v1, r1), term(c2, p2, v2, r2)), res))
-        cpv_cases.append((cpair(term(c2, p2, v2, r2), term(c1, p1, v1, r1)), rres))
-        key_cases.append((term(c1, p1, v1, r1), impl_call(lambda: cpvmod.VersionedCPV(t1).cpvstr)))
-        if t1 != t2:
-            chk.nontrivial(("cpv", t1, t2))
-        if isinstance(res, Err):
-            prop_bad.append({"what": "CPV comparison raised", "input": {"a": t1, "b": t2, "error": res.kind}})
-            continue
-        for cl in clauses(res, rres):
-            cid = "cpv-respelled-version" if (cl == "eq-hash" and k_cpv_respelled((c1, p1, v1, r1), (c2, p2, v2, r2))) else None
-            report("CPV", cl, {"a": t1, "b": t2, "[==,!=,<,<=,>,>=,hash==]": res}, cid)
-        if i % 150 == 0:
-            chk.sample({"stream": "cpv", "a": t1, "b": t2, "impl[==,!=,<,<=,>,>=,hash==]": res})
+        c1, p1 = rng.choice(CAT_POOL), rng.choice(PKG_POOL)
+        c2 = c1 if rng.random() < 0.8 else rng.choice(CAT_POOL)
+        p2 = p1 if rng.random() < 0.8 else rng.choice(PKG_POOL)
+        if rng.random() < 0.06 and (c1, p1) != (c2, p2):
+            v1 = r1 = None                      # unversioned against versioned, different keys
+        judge_cpv((c1, p1, v1, r1), (c2, p2, v2, r2), i)
     chk.count("cpv", len(cpv_cases))
     chk.count("cpvkey", len(key_cases))
+
+    # ---- long-lived objects: sorting and repeated questions (Python oracle only)
+    specs = [(c, p, v, None) for c in CAT_POOL[:7] for p in PKG_POOL[:3] for v in (one, None)]
+    specs += [("dev", "foo", c01.parse_text(t), r) for t in ("1.0", "1.00", "1_alpha", "01") for r in (None, 1)]
+    if not (chk.thorough or chk.fingerprint_changed):
+        specs = rng.sample(specs, 26)
+    vers = [s_ for s_ in specs if s_[2] is not None]
+    unv = [s_ for s_ in specs if s_[2] is None]
+    n_sort = 0
+    for group in (vers, unv):
+        texts = [cpv_text(s_) for s_ in group]
+        objs = impl_call(lambda: [cpv_obj(s_, t) for s_, t in zip(group, texts)])
+        if isinstance(objs, Err):
+            report("CPV", "raised", {"a": texts[0], "b": texts[-1], "error": objs.kind}, None)
+            continue
+        first = {}
+        for a_ in range(len(objs)):
+            for b_ in range(len(objs)):
+                first[(a_, b_)] = impl_call(seven, objs[a_], objs[b_])
+        order = impl_call(lambda: sorted(range(len(objs)), key=lambda k_: SortKey(objs[k_])))
+        {o: 0 for o in objs}            # hash every object once more (dict insertion)
+        for a_ in range(len(objs)):
+            for b_ in range(len(objs)):
+                n_sort += 1
+                again = impl_call(seven, objs[a_], objs[b_])
+                if again != first[(a_, b_)]:
+                    report("CPV", "the same question on the same long-lived objects gets a different answer",
+                           {"a": texts[a_], "b": texts[b_], "first": first[(a_, b_)], "again": again}, None)
+        if isinstance(order, Err):
+            report("CPV", "sorted() raised", {"a": texts[0], "b": texts[-1], "error": order.kind}, None)
+            continue
+        for x_ in range(len(order)):
+            for y_ in range(x_ + 1, len(order)):
+                n_sort += 1
+                r_ = first[(order[x_], order[y_])]
+                if not isinstance(r_, Err) and r_[4]:     # sorted() put a before b although a > b
+                    report("CPV", "sorted() disagrees with '>'",
+                           {"a": texts[order[x_]], "b": texts[order[y_]], "[==,!=,<,<=,>,>=,hash==]": r_}, None)
+    chk.count("cpv-sort", n_sort)
 
     # ------------------------------------------------------------ atom pairs
     atom_cases, text_cases = [], []
@@ -507,12 +626,24 @@ def main(chk: Check):
         (A(blocks=False, bstrong=False, op="=", cat="a", pkg="b", ver=c01.parse_text("1.0"), negate=False), "rev", "0"),
     ]
     pairs = [(a, a.copy(**{f: v})) for a, f, v in witness]
+    for d in corpus:
+        if d.get("stream") == "atom":
+            def af(x):
+                kw = dict(blocks=False, bstrong=False, op="", negate=False)
+                kw.update(x)
+                if kw.get("ver") is not None:
+                    kw["ver"] = c01.parse_text(kw["ver"])
+                if kw.get("use") is not None:
+                    kw["use"] = tuple(kw["use"])
+                return A(**kw)
+            pairs.append((af(d["a"]), af(d["b"])))
     # atoms differing in EXACTLY one attribute, over all unordered pairs of its spelling pool
     # (leading-zero digit runs, mixed alphanumerics): slot, sub-slot, repo id, one USE flag
     base = A(blocks=False, bstrong=False, op="", cat="a", pkg="b", negate=False)
     matrix_pairs = []
     for field, pool, extra in (("slot", SLOT_POOL, {}), ("subslot", SUBSLOT_POOL, {"slot": "0"}),
-                               ("repo", REPO_POOL, {}), ("use", tuple((f,) for f in FLAG_POOL), {}),
+                               ("repo", REPO_POOL, {}), ("cat", CAT_POOL, {"pkg": "foo"}),
+                               ("pkg", PKG_POOL, {"cat": "dev"}), ("use", tuple((f,) for f in FLAG_POOL), {}),
                                ("use", tuple(("w", f) for f in FLAG_POOL), {"slot": "1"})):
         for i in range(len(pool)):
             for j in range(i + 1, len(pool)):
@@ -522,8 +653,11 @@ def main(chk: Check):
 
         def numeric_reading(a):
             return re.sub(r"0*(\d+)", r"\1", a.text())
-        must = [p for p in matrix_pairs if numeric_reading(p[0]) == numeric_reading(p[1])]   # :0 vs :00, x1 vs x01 ...
-        rest = [p for p in matrix_pairs if numeric_reading(p[0]) != numeric_reading(p[1])]
+        def is_must(p):     # :0 vs :00, x1 vs x01 ...; dev vs dev-util, foo vs foo+ ...
+            return (numeric_reading(p[0]) == numeric_reading(p[1]) or prefix_related(p[0].cat, p[1].cat)
+                    or prefix_related(p[0].pkg, p[1].pkg))
+        must = [p for p in matrix_pairs if is_must(p)]
+        rest = [p for p in matrix_pairs if not is_must(p)]
         matrix_pairs = must + rng.sample(rest, 60)
     pairs += matrix_pairs
     for _ in range(chk.n(340, 5000)):
